@@ -195,10 +195,45 @@ func c02Arith(t *rapid.T) []kit.Argv {
 	return out
 }
 
+// c02Empty: a key that holds the empty string - reached in each of the ways a client can reach it - and then
+// commands that append, overwrite, cut and read zero bytes. The empty string is a value like any other: the key
+// exists, is a string, has length 0.
+func c02Empty(t *rapid.T) []kit.Argv {
+	k := c02Key(t)
+	var out []kit.Argv
+	switch rapid.IntRange(0, 5).Draw(t, "how") {
+	case 0:
+		out = append(out, kit.A("SET", k, ""))
+	case 1:
+		out = append(out, kit.A("DEL", k), kit.A("APPEND", k, ""))
+	case 2:
+		out = append(out, kit.A("MSET", k, ""))
+	case 3:
+		out = append(out, kit.A("DEL", k), kit.A("SETRANGE", k, "0", ""))
+	case 4:
+		out = append(out, kit.A("SET", k, "x"), kit.A("GETSET", k, ""))
+	default:
+		out = append(out, kit.A("SETEX", k, "100000", ""))
+	}
+	for n := rapid.IntRange(2, 5).Draw(t, "n"); n > 0; n-- {
+		out = append(out, kit.A(pick(t, "emptyop",
+			[]string{"APPEND", k, ""}, []string{"APPEND", k, ""}, []string{"SETRANGE", k, "0", ""}, []string{"GET", k}, []string{"STRLEN", k}, []string{"GETRANGE", k, "0", "-1"}, []string{"MGET", k, k},
+			[]string{"EXISTS", k}, []string{"TYPE", k}, []string{"SET", k, "", "KEEPTTL"}, []string{"SET", k, "", "XX", "GET"}, []string{"GETEX", k, "PERSIST"}, []string{"SUBSTR", k, "0", "0"},
+			[]string{"INCR", k}, []string{"INCRBYFLOAT", k, "1"}, []string{"LCS", k, k}, []string{"SETNX", k, "v"}, []string{"MSETNX", k, "v"}, []string{"GETDEL", k}, []string{"APPEND", k, "tail"},
+			[]string{"SETRANGE", k, "2", "zz"}, []string{"RENAME", k, k}, []string{"COPY", k, "d", "REPLACE"}, []string{"GET", "d"},
+		)...))
+	}
+	return out
+}
+
 func c02Gen(t *rapid.T) SeqCase {
 	var steps []kit.Argv
 	n := rapid.IntRange(8, 50).Draw(t, "steps")
 	for i := 0; i < n; i++ {
+		if rapid.IntRange(0, 19).Draw(t, "empty") == 0 {
+			steps = append(steps, c02Empty(t)...)
+			continue
+		}
 		if rapid.IntRange(0, 14).Draw(t, "arith") == 0 {
 			steps = append(steps, c02Arith(t)...)
 			continue
